@@ -569,11 +569,20 @@ EnsureRef(st, basis) ==
   THEN [st EXCEPT !.rf = Append(@, [b |-> basis, q |-> [x \in 1..NQ(st) |-> NewRef]])]
   ELSE st
 
-AppendDmm(st, mp, cid) ==
+(* wq = detuning-map weight of every qubit, in halves *)
+WeightFacts(wq) ==
+  LET n == Len(wq)
+      mx == IF n = 0 THEN 0 ELSE CHOOSE m \in {wq[k] : k \in 1..n} : \A k \in 1..n : wq[k] <= m
+      RECURSIVE sum(_)
+      sum(k) == IF k = 0 THEN 0 ELSE wq[k] + sum(k - 1)
+  IN <<mx, sum(n)>>
+
+AppendDmm(st, wq, cid) ==
   LET nm == DmmNm(st, cid)
       st1 == [st EXCEPT !.ch = Append(@, [nm |-> nm, cid |-> cid,
                                           sl |-> <<TSlot(-1, 0, AllMask(NQ(st)))>>,
-                                          eb |-> <<>>, wt |-> FALSE, mp |-> mp])]
+                                          eb |-> <<>>, wt |-> FALSE, mp |-> WeightFacts(wq),
+                                          wq |-> wq])]
   IN EnsureRef(st1, "ground-rydberg")
 
 DmmChecks(st, cid) ==
@@ -612,7 +621,7 @@ SetSlmDmm(st, cid, tg) ==
   IF chk # "ok" THEN Err(st, chk)
   ELSE
   LET n == PopCount(tg, NQ(st))
-      st1 == AppendDmm(st, <<IF n > 0 THEN 2 ELSE 0, 2 * n>>, cid)
+      st1 == AppendDmm(st, [q \in 1..NQ(st) |-> IF HasBit(tg, q) THEN 2 ELSE 0], cid)
       nm == LastOf(st1.ch).nm
       st2 == [st1 EXCEPT !.slmDmm = cid, !.slmNm = nm]
       tms == SlmTimes(st2)
@@ -631,14 +640,14 @@ EnterIsing(st) ==
   ELSE LET st1 == [st EXCEPT !.mode = "ising"] IN
        IF st.slmDmm # 0 THEN SetSlmDmm(st1, st.slmDmm, st.slmTg) ELSE Ok(st1)
 
-(* Sequence.config_detuning_map; mp = <<2 * max weight, 2 * sum of weights>> *)
-ConfigDetMap(st, mp, cid) ==
+(* Sequence.config_detuning_map; wq = weight of every qubit in halves *)
+ConfigDetMap(st, wq, cid) ==
   IF Measured(st) THEN Err(st, "RE")
   ELSE LET chk == DmmChecks(st, cid) IN
   IF chk # "ok" THEN Err(st, chk)
   ELSE LET r == EnterIsing(st) IN
   IF r.out # "ok" THEN r
-  ELSE Ok([AppendDmm(r.st, mp, cid) EXCEPT !.lg = Append(@, "config_detuning_map")])
+  ELSE Ok([AppendDmm(r.st, wq, cid) EXCEPT !.lg = Append(@, "config_detuning_map")])
 
 (* Sequence.config_slm_mask (not blocked after measurement) *)
 ConfigSlm(st, tg, cid) ==
@@ -708,7 +717,7 @@ Declare(st, nm, cid, it) ==
   ELSE
   LET st1 == r1.st
       st2 == [st1 EXCEPT !.ch = Append(@, [nm |-> nm, cid |-> cid, sl |-> <<>>, eb |-> <<>>,
-                                           wt |-> FALSE, mp |-> <<0, 0>>])]
+                                           wt |-> FALSE, mp |-> <<0, 0>>, wq |-> <<>>])]
       st3 == EnsureRef(st2, cfg.basis)
       i == Len(st3.ch)
       r == IF cfg.addr = "G"
@@ -889,7 +898,7 @@ Step(st, c) ==
     [] c.op = "eom_off"  -> DisableEom(st, c.nm, c.cpd)
     [] c.op = "eom_mod"  -> ModifyEom(st, c.nm, c.sp, c.cpd)
     [] c.op = "eom_add"  -> AddEomPulse(st, c.nm, c.dur, c.ph, c.pps, c.proto, c.cpd)
-    [] c.op = "detmap"   -> ConfigDetMap(st, c.mp, c.cid)
+    [] c.op = "detmap"   -> ConfigDetMap(st, c.w2, c.cid)
     [] c.op = "slm"      -> ConfigSlm(st, c.tg, c.cid)
     [] c.op = "dmm_add"  -> AddDmm(st, c.nm, c.p, c.proto)
     [] c.op = "magfield" -> MagField(st, c.zero)
